@@ -158,6 +158,17 @@ def valOfJson (j : Json) : Except String Val := do
   let l ← a.toList.mapM (·.getStr?)
   pure (fun n => l.contains n)
 
+def assumptionsOfJson (j : Json) : Except String (List (String × Bool)) := do
+  match j.getObjVal? "assumptions" with
+  | .error _ => pure []
+  | .ok a =>
+    let arr ← a.getArr?
+    arr.toList.mapM (fun p => do
+      let q ← p.getArr?
+      match q.toList with
+      | [n, b] => pure ((← n.getStr?), (← b.getBool?))
+      | _ => throw "assumption")
+
 def handle (j : Json) : Except String Json := do
   let op ← (← j.getObjVal? "op").getStr?
   let ord := getOrd j
@@ -301,6 +312,43 @@ def handle (j : Json) : Except String Json := do
       | .error _ => ord c.startpointsAll
     match dimacs c ord as sp with
     | .ok t => pure (respond .ok [("text", jstr t)])
+    | .error e => pure (respond e [])
+  | "solve" =>
+    -- {"op":"solve","c":..,"assumptions":[[name,bool]..]} with the DPLL instance of the solver contract
+    let c ← circuitOfJson (← j.getObjVal? "c")
+    let as ← assumptionsOfJson j
+    match solve Dpll.dpll c ord as with
+    | .ok none => pure (respond .ok [("sat", Json.bool false)])
+    | .ok (some v) => pure (respond .ok [("sat", Json.bool true), ("true", jarr jstr (c.nodeNames.filter v)),
+                                          ("consistent", Json.bool (consistentB c v))])
+    | .error e => pure (respond e [])
+  | "model_count" =>
+    let c ← circuitOfJson (← j.getObjVal? "c")
+    let as ← assumptionsOfJson j
+    match modelCount Dpll.dpll c ord as with
+    | .ok n => pure (respond .ok [("r", jnat n)])
+    | .error e => pure (respond e [])
+  | "sensitize" =>
+    let c ← circuitOfJson (← j.getObjVal? "c")
+    match Props.sensitize Dpll.dpll c (← (← j.getObjVal? "n").getStr?) [] ord (getOrdE j) with
+    | .ok none => pure (respond .ok [("sat", Json.bool false)])
+    | .ok (some r) => pure (respond .ok [("sat", Json.bool true),
+        ("r", jarr (fun (p : String × Bool) => Json.arr #[jstr p.1, Json.bool p.2]) r)])
+    | .error e => pure (respond e [])
+  | "sensitivity" =>
+    let c ← circuitOfJson (← j.getObjVal? "c")
+    match Props.sensitivity Dpll.dpll c (← (← j.getObjVal? "n").getStr?) ord with
+    | .ok n => pure (respond .ok [("r", jnat n)])
+    | .error e => pure (respond e [])
+  | "influence" =>
+    let c ← circuitOfJson (← j.getObjVal? "c")
+    match Props.influence Dpll.dpll c (← (← j.getObjVal? "n").getStr?) ord (getOrdE j) with
+    | .ok r => pure (respond .ok [("r", jarr (fun (p : String × Nat × Nat) => Json.arr #[jstr p.1, jnat p.2.1, jnat p.2.2]) r)])
+    | .error e => pure (respond e [])
+  | "avg_sensitivity" =>
+    let c ← circuitOfJson (← j.getObjVal? "c")
+    match Props.avgSensitivity Dpll.dpll c (← (← j.getObjVal? "n").getStr?) ord (getOrdE j) with
+    | .ok r => pure (respond .ok [("tot", jnat r.1), ("k", jnat r.2)])
     | .error e => pure (respond e [])
   | "sensitization_transform" =>
     let c ← circuitOfJson (← j.getObjVal? "c")
